@@ -1136,6 +1136,10 @@ func BinaryOp(x_ Value, op token.Token, y_ Value) Value {
 		case token.QUO:
 			return makeRat(big.NewRat(a, b))
 		case token.QUO_ASSIGN: // force integer division
+			if a == math.MinInt64 && b == -1 {
+				// the only int64 quotient that does not fit int64 (a / b would wrap to a)
+				return makeInt(newInt().Quo(big.NewInt(a), big.NewInt(b)))
+			}
 			c = a / b
 		case token.REM:
 			c = a % b
